@@ -19,7 +19,8 @@ def cases(ctx):
   rng = ctx.rng
   for _ in ctx.loop(4, 32):
     order = rng.randint(100, 104)
-    base = Fraction(rng.choice([1, -1]), rng.choice([2, 3, 10]))
+    base = rng.choice([Fraction(1, 2), Fraction(-1, 2), Fraction(3, 5),
+                       Fraction(-2, 3), Fraction(1, 3)])
     ks = [base] * order
     ks[rng.choice([4, 7])] = Fraction(0)          # k5 or k8 exactly zero
     unstable = rng.random() < 0.5
